@@ -323,7 +323,8 @@ def strip_comments(src: str) -> str:
 
 def audit_sources() -> list[str]:
     problems = []
-    for f in sorted(list((COQ / "theories").glob("*.v")) + list((COQ / "properties").glob("*.v"))):
+    listed = [COQ / l.strip() for l in (COQ / "_CoqProject").read_text().splitlines() if l.strip().endswith(".v")]
+    for f in listed:   # the development = the files of _CoqProject (a fresh build compiles exactly these)
         src = strip_comments(f.read_text())
         for m in FORBIDDEN.finditer(src):
             problems.append(f"{f.name}: forbidden keyword {m.group(0)!r}")
